@@ -18,6 +18,9 @@ NCPU = os.cpu_count() or 4
 SAN_FLAGS = ['-O1', '-g', '-fsanitize=address,undefined', '-fno-sanitize-recover=all',
              '-fno-omit-frame-pointer']
 GUARD = 'LIBNSTD_VERIF'
+# line-coverage measurement (tools/coverage.py): nothing changes unless VERIF_COVERAGE=1
+COV_FLAGS = ['--coverage', '-O0', '-fprofile-update=prefer-atomic'] if os.environ.get('VERIF_COVERAGE') == '1' else []
+COV_LINK = os.environ.get('VERIF_COVERAGE_LINK', '').split() if COV_FLAGS else []   # extra objects (gcov flush hooks)
 
 
 def log(*a):
@@ -224,7 +227,7 @@ def build_libnstd(variant='san', extra_flags=(), ndebug=True):
     """Compile every libnstd source of the *current working tree* into a static library.
     Cached by content hash of all sources+headers+flags, so an edited tree is always rebuilt
     and an unchanged one is not.  Returns (path or None, log)."""
-    flags = list(SAN_FLAGS if variant == 'san' else ['-O1', '-g']) + list(extra_flags)
+    flags = list(SAN_FLAGS if variant == 'san' else ['-O1', '-g']) + list(extra_flags) + COV_FLAGS
     flags += ['-D' + GUARD]
     if ndebug:
         flags += ['-DNDEBUG']
@@ -269,7 +272,7 @@ def build_harness(cid, sources, lib=None, extra_flags=(), link_flags=(), variant
     out = os.path.join(BUILD, cid)
     os.makedirs(out, exist_ok=True)
     exe = os.path.join(out, name)
-    flags = list(SAN_FLAGS if variant == 'san' else ['-O1', '-g']) + list(extra_flags) + ['-D' + GUARD]
+    flags = list(SAN_FLAGS if variant == 'san' else ['-O1', '-g']) + list(extra_flags) + COV_FLAGS + ['-D' + GUARD]
     if ndebug:
         flags += ['-DNDEBUG']
     key = repo_hash(' '.join(flags) + tree_hash([os.path.join(VERIF, s) for s in sources] +
@@ -296,7 +299,7 @@ def build_harness(cid, sources, lib=None, extra_flags=(), link_flags=(), variant
             logtxt += '--- %s\n%s\n' % (s, o.decode('utf-8', 'replace')[-4000:])
     if not ok:
         return None, logtxt
-    cmd = ['g++'] + flags + objs + ([lib] if lib else []) + list(link_flags) + ['-lpthread', '-lrt', '-ldl', '-o', exe]
+    cmd = ['g++'] + flags + objs + ([lib] if lib else []) + list(link_flags) + COV_LINK + ['-lpthread', '-lrt', '-ldl', '-o', exe]
     rc, o, e = sh(cmd)
     if rc != 0:
         return None, o + e
